@@ -75,7 +75,8 @@ def runCase (inp obs : String) : CaseResult :=
       -- only in-place operations through a NON-constant name can excuse a difference here: a write
       -- through the constant's own name must be refused (or copy) exactly as in the model
       let okHaz := fun h => !isConstName (hazardName h) && hazardClass h != "large-array-append-shares-capacity"
-      let hz1 := h1.map (·.2); let hz0 := h0.map (·.2)
+      let hz0 := sharedHazards c.asts r0 (h0.map (·.2))
+      let hz1 := if h1 == h0 then hz0 else sharedHazards c.asts r1 (h1.map (·.2))
       let (diff, explained, k) := combine
         [classify true okHaz hz1 b r1, classify true okHaz hz0 d r0, classify true okHaz hz1 a r1, classify true okHaz hz0 cc r0]
       let anyErr := a.any fun o => (o.splitOn ";e=1;").length > 1
